@@ -157,8 +157,8 @@ func VerifCondSimplify(vars []VerifCondVar, prefs bool, assigned []string, line 
 	return
 }
 
-// VerifMayMatchNumber exposes MkCondSimplifier.mayMatchNumber.
-func VerifMayMatchNumber(pattern string) (may bool, errText string) {
+// VerifMayMatchNumber14 exposes MkCondSimplifier.mayMatchNumber.
+func VerifMayMatchNumber14(pattern string) (may bool, errText string) {
 	m, err := (*MkCondSimplifier).mayMatchNumber(nil, pattern)
 	if err != nil {
 		return m, err.Error()
